@@ -11,6 +11,14 @@ Definition trivia_types : list str := ctx_whitespaces ++ [s "COMMENT"; s "MULT_C
 Definition skip_ws_nc (toks : list token) (pos : Z) : Z :=
   skip_while toks (fun i => truthy (checkl toks i trivia_types)) pos.
 
+(* Context.skip_ws(pos, comment=True): blanks (no NEWLINE) + COMMENT, MULT_COMMENT *)
+Definition ws_comment_types : list str := ws_no_nl ++ [s "COMMENT"; s "MULT_COMMENT"].
+Definition skip_ws_c (toks : list token) (pos : Z) : Z :=
+  skip_while toks (fun i => truthy (checkl toks i ws_comment_types)) pos.
+(* token.type / token.value of a token that is known to be there (None only past the end, excluded by a preceding test) *)
+Definition otype (t : option token) : str := match t with Some t => t_type t | None => [] end.
+Definition ovalue (t : option token) : str := match t with Some t => match t_val t with Some v => v | None => [] end | None => [] end.
+
 (* a token as (type, value): keyword / operator / white-space tokens have value None, read as "" (never read by the
    check on such tokens: it tests the type first) *)
 Definition gtok_of (t : option token) : option gtok :=
